@@ -196,6 +196,17 @@ def render(cfg):
         L.append('  ]%s' % (',' if pi < 2 else ''))
     L.append(']')
     L.append('')
+    L.append('end Mqtt.Config')
+    return '\n'.join(L) + '\n'
+
+OUT2 = os.path.join(HERE, '..', 'lean', 'MqttVerif', 'Generated', 'AddrScan.lean')
+
+def render_addr(cfg):
+    L = []
+    L.append('/-  GENERATED by harness/gen_config.py from the current source under %s -- do not edit.' % REPO_SRC)
+    L.append('    (kept apart from Config.lean, which every module imports: these two numbers move with any edit near a dictionary access) -/')
+    L.append('namespace Mqtt.Config')
+    L.append('')
     L.append('/-- uses of the factory\'s six per-address dictionaries in the client\'s source (AST scan): those of the form')
     L.append('    `self.factory.<dict>[self.addr]` (or through a local alias of `self.addr`; in the factory: created in `__init__`, indexed by the')
     L.append('    address argument in `buildProtocol`, scanned over all addresses only in `_idInUse`), and the others%s -/' % (' (at ' + ', '.join(cfg['addrUnkeyedAt'][:8]) + ')' if cfg['addrUnkeyedAt'] else ''))
@@ -216,6 +227,10 @@ def main():
     if old != text:
         os.makedirs(os.path.dirname(OUT), exist_ok=True)
         open(OUT, 'w').write(text)
+    text2 = render_addr(cfg)
+    old2 = open(OUT2).read() if os.path.exists(OUT2) else None
+    if old2 != text2:
+        open(OUT2, 'w').write(text2)
     print(json.dumps({'digest': source_digest(), 'changed': old != text}))
     return 0
 
